@@ -448,6 +448,74 @@ Section PackProofs.
     - rewrite skipn_app, Hf, Nat.sub_diag, skipn_all2 by lia. simpl.
       rewrite firstn_app, Nat.sub_diag, firstn_all. simpl. now rewrite app_nil_r.
   Qed.
+
+  (* an overwriting write (cursor anywhere inside the buffer): size = max(old size, cursor+size); every byte outside
+     [cursor, cursor+size) is unchanged; the item's bytes sit at the old cursor *)
+  Lemma P_pack_write_overwrite : forall (p : pack) pt els, c07_pk_pos B p <= length (c07_pk_buf B p) ->
+    let p' := pk_write p pt els in
+    let n := length (item_bytes pt els) in
+    length (c07_pk_buf B p') = Nat.max (length (c07_pk_buf B p)) (c07_pk_pos B p + n) /\
+    firstn (c07_pk_pos B p) (c07_pk_buf B p') = firstn (c07_pk_pos B p) (c07_pk_buf B p) /\
+    firstn n (skipn (c07_pk_pos B p) (c07_pk_buf B p')) = item_bytes pt els /\
+    skipn (c07_pk_pos B p + n) (c07_pk_buf B p') = skipn (c07_pk_pos B p + n) (c07_pk_buf B p) /\
+    c07_pk_pos B p' = c07_pk_pos B p + n.
+  Proof.
+    intros p pt els Hpos.
+    destruct (P_pack_write_keeps_prefix p pt els Hpos) as (H1 & _ & H3 & _ & H5).
+    cbv zeta. repeat split; try assumption.
+    - unfold c07_pk_write. set (bs := item_bytes pt els). simpl. unfold c07_overwrite.
+      destruct (Nat.ltb_spec (length (c07_pk_buf B p)) (c07_pk_pos B p + length bs)).
+      + rewrite !app_length, firstn_length, skipn_length, !app_length, repeat_length. lia.
+      + rewrite !app_length, firstn_length, skipn_length. lia.
+    - unfold c07_pk_write. set (bs := item_bytes pt els). simpl. unfold c07_overwrite.
+      destruct (Nat.ltb_spec (length (c07_pk_buf B p)) (c07_pk_pos B p + length bs)).
+      + rewrite (skipn_all2 (c07_pk_buf B p)) by lia.
+        apply skipn_all2. rewrite !app_length, firstn_length, skipn_length, !app_length, repeat_length. lia.
+      + rewrite app_assoc, skipn_app.
+        rewrite skipn_all2 by (rewrite app_length, firstn_length; lia).
+        rewrite app_length, firstn_length. replace (c07_pk_pos B p + length bs - _) with 0 by lia. reflexivity.
+  Qed.
+
+  (* overwriting a slot by an item of the same packed size (the placeholder-count pattern: write a dummy, write the items, seek back,
+     write the real value, seek(end)): the stream then reads back with the new value in that slot and everything else intact *)
+  Lemma overwrite_same_len : forall (pre old post bs : list B), length old = length bs ->
+    c07_overwrite B (pre ++ old ++ post) (length pre) bs = pre ++ bs ++ post.
+  Proof.
+    intros. unfold c07_overwrite.
+    rewrite firstn_app, Nat.sub_diag, firstn_all. simpl. rewrite app_nil_r. f_equal. f_equal.
+    rewrite skipn_app, skipn_all2 by lia. replace (length pre + length bs - length pre) with (length old) by lia.
+    simpl. rewrite skipn_app, Nat.sub_diag, skipn_all. reflexivity.
+  Qed.
+
+  Lemma all_bytes_app : forall a b, all_bytes (a ++ b) = all_bytes a ++ all_bytes b.
+  Proof. intros; unfold all_bytes. now rewrite flat_map_app. Qed.
+
+  Lemma P_pack_overwrite_roundtrip : forall items1 items2 pt old new,
+    Forall wt_item (items1 ++ (pt, new) :: items2) ->
+    length (item_bytes pt old) = length (item_bytes pt new) ->
+    let p := c07_pk_write_all B V T zeroB enc enc_len (c07_pk_empty B) (items1 ++ (pt, old) :: items2) in
+    let p1 := pk_write (c07_pk_seek B p (length (all_bytes items1))) pt new in
+    let p2 := c07_pk_seek B p1 (c07_pk_size B p1) in
+    c07_pk_size B p1 = c07_pk_size B p /\ c07_pk_eof B p2 = true /\
+    exists p', c07_pk_read_all B V T dec dec_len (c07_pk_seek B p2 0) (map fst (items1 ++ (pt, new) :: items2))
+               = Some (map snd (items1 ++ (pt, new) :: items2), p') /\ c07_pk_eof B p' = true.
+  Proof.
+    intros items1 items2 pt old new Hwt Hlen p p1 p2. subst p2 p1 p.
+    rewrite write_all_append by reflexivity. simpl c07_pk_buf. simpl ([] ++ _).
+    rewrite all_bytes_app. simpl all_bytes at 1. fold (all_bytes items2).
+    unfold c07_pk_write, c07_pk_seek, c07_pk_size, c07_pk_eof. simpl.
+    set (pre := all_bytes items1). set (bo := item_bytes pt old). set (bn := item_bytes pt new). set (post := all_bytes items2).
+    assert (Hno : (length (pre ++ bo ++ post) <? length pre + length bn) = false).
+    { apply Nat.ltb_ge. rewrite !app_length. fold bo bn in Hlen. lia. }
+    rewrite Hno. rewrite overwrite_same_len by exact Hlen.
+    split; [rewrite !app_length; fold bo bn in Hlen; lia|]. split; [apply Nat.eqb_refl|].
+    assert (Hb : pre ++ bn ++ post = all_bytes (items1 ++ (pt, new) :: items2)).
+    { rewrite all_bytes_app. reflexivity. }
+    eexists. split.
+    - apply (read_all_items (items1 ++ (pt, new) :: items2) (C07_PK B (pre ++ bn ++ post) 0) []); simpl; [assumption|lia|].
+      now rewrite app_nil_r.
+    - simpl. rewrite Hb. apply Nat.eqb_refl.
+  Qed.
 End PackProofs.
 
 (* the executable instance (little-endian byte patterns) satisfies the section hypotheses *)
